@@ -284,6 +284,30 @@ pub fn binding(_cex: &Value) -> Result<String, String> {
         }
       }
     }
+    // accessors of a decoded item report the protected header's nonce / kid / alg as they stand (the empty string included)
+    for nonce in ["", "n-0S6_WzA2Mj", " "] {
+      for kid in ["", "did:example:123#k"] {
+        let mut h = JwsHeader::new();
+        h.set_alg(JwsAlgorithm::EdDSA);
+        h.set_nonce(nonce);
+        h.set_kid(kid);
+        if let Ok(e) = CompactJwsEncoder::new(b"payload", &h) {
+          let sig = toy_sign(&k, e.signing_input());
+          let token = e.into_jws(&sig);
+          match Decoder::new().decode_compact_serialization(token.as_bytes(), None) {
+            Ok(item) => {
+              if item.nonce() != Some(nonce) || item.kid() != Some(kid) || item.alg() != Some(JwsAlgorithm::EdDSA) {
+                log.push(format!("item accessors report nonce {:?} / kid {:?} / alg {:?} for a header carrying nonce {nonce:?}, kid {kid:?}, EdDSA", item.nonce(), item.kid(), item.alg()));
+              }
+              if item.protected_header().and_then(|p| p.nonce()) != item.nonce() {
+                log.push("item.nonce() disagrees with the decoded protected header".to_owned());
+              }
+            }
+            Err(e) => log.push(format!("own token with nonce {nonce:?} does not decode: {e}")),
+          }
+        }
+      }
+    }
     // compact segment count
     if let Ok(t) = encode(Ser::Compact, b"a", None, false, &k) {
       for bad in [format!("{t}.x"), format!("{t}."), t.rsplitn(2, '.').last().unwrap().to_owned()] {
